@@ -534,6 +534,7 @@ func c08() {
 	})
 	c08Chain()
 	c08UnknownThenKnown()
+	c08ContractorReorg()
 	c08Concurrent()
 	run.DistinctN = int64(len(outcomes))
 	run.Extra["sequences"] = len(seqs)
